@@ -463,7 +463,93 @@ func sConcHarness(raw json.RawMessage, cfg vrt.Config) (vrt.Result, Outcome) {
 	return res, outc
 }
 
+// concurrent clients and a crash: see conccrash.go.  Here reads count too: the simple server keeps a file locked
+// until its update is on disk, so a reply never shows data that a crash can still take away.
+type sCCArg struct {
+	Name    string  `json:"name"`
+	Clients [][]sOp `json:"clients"`
+	Cap     int     `json:"cap"`
+}
+
+var sCCStats ccStats
+
+func sCCHarness(raw json.RawMessage, cfg vrt.Config) (vrt.Result, Outcome) {
+	var a sCCArg
+	json.Unmarshal(raw, &a)
+	base := sBase()
+	var outc Outcome
+	var ops []ccOp
+	var d *vdisk.Disk
+	for _, ci := range a.Clients {
+		for _, o := range ci {
+			ops = append(ops, ccOp{In: o})
+		}
+	}
+	res := vrt.Run(cfg, func() {
+		d = vdisk.New(base)
+		srv := simple.Recover(d)
+		vrt.Quiesce()
+		vrt.SetBranching(true)
+		var ids []int
+		id := 0
+		for ci, cops := range a.Clients {
+			ci, cops, first := ci, cops, id
+			id += len(cops)
+			ids = append(ids, vrt.Go(fmt.Sprintf("client%d", ci), vrt.ClClient, func() {
+				for j, o := range cops {
+					d.Mark("inv", first+j, 0)
+					got := sDo(srv, o)
+					ops[first+j].Client, ops[first+j].Out = ci, got
+					d.Mark("ack", first+j, 0)
+				}
+			}))
+		}
+		vrt.Join(ids...)
+		vrt.SetBranching(false)
+		vrt.Quiesce()
+	})
+	var ks []string
+	for _, o := range ops {
+		out, _ := o.Out.(sOut)
+		ks = append(ks, fmt.Sprintf("c%d:%s=>%+v", o.Client, o.In.(sOp), clipOut(out)))
+	}
+	outc.Key = strings.Join(ks, " | ")
+	if v := VerdictViolation(&res, "C17", "concurrent"); v != nil {
+		outc.Viol = v
+		return res, outc
+	}
+	if res.Pruned {
+		return res, outc
+	}
+	ccPositions(d.Log, ops)
+	show := func(in, out interface{}) string {
+		if out == nil {
+			return in.(sOp).String()
+		}
+		return fmt.Sprintf("%s=>%+v", in.(sOp), clipOut(out.(sOut)))
+	}
+	recoverObs := func(img *vdisk.Image, pol int) ([]lin.Op, *vrt.Result) {
+		var obs []lin.Op
+		r := vrt.Run(vrt.Config{}, func() {
+			srv := simple.Recover(vdisk.New(img))
+			if pol == 1 {
+				vrt.Quiesce()
+			}
+			for _, o := range []sOp{{K: "GETATTR", Ino: 2}, {K: "READ", Ino: 2, Off: 0, Cnt: 8192}, {K: "GETATTR", Ino: 3}, {K: "READ", Ino: 3, Off: 0, Cnt: 8192}, {K: "GETATTR", Ino: 31}} {
+				obs = append(obs, lin.Op{Client: 99, In: o, Out: sDo(srv, o)})
+			}
+			vrt.Quiesce()
+		})
+		return obs, &r
+	}
+	if sig, detail := concCrashCheck(a.Name, base, d.Log, ops, sSpec{}, sOut{}, recoverObs, show, func(in interface{}) bool { return true }, a.Cap, &sCCStats); sig != "" {
+		outc.Viol = &report.Violation{Property: "C17", Sig: sig, Detail: detail}
+	}
+	return res, outc
+}
+
 func init() {
+	RegisterHarness("c17.conccrash", sCCHarness)
 	Checks["C17"] = C17
 	par.Register("c17.seq", sSeqJob)
 	RegisterHarness("c17.conc", sConcHarness)
@@ -475,7 +561,7 @@ func C17(r *report.Report, tier string) {
 	if tier == "thorough" {
 		depth, cdepth, bound = 3, 3, 3
 	}
-	r.Rule = fmt.Sprintf("specification: inodes 2..31 are files of at most 4096 bytes; sequential: every sequence of <=%d requests (from the initial state and from two non-initial states: a file written and then shrunk, a full file) over a %d-symbol alphabet (inode numbers {0,1,2,3,31,32,2^64-1}; WRITE offsets {0,1,100,4095,4096,4097,2^64-1} x counts {0,1,100,4096,4097} x data lengths {count,count-1,count+1}; READs; SETATTR sizes up to 2^64-1; restart) - every reply (status, count, data, eof, size) and the final contents against the specification; crash: every crash image of every mutating history of depth <=%d recovered with simple.Recover under two schedules: contents = specification after a prefix containing every acknowledged request, and the server keeps serving; concurrent: all schedules with <=%d deviations of 2-3 clients on one file, brute-force linearizability", depth, len(al), cdepth, bound)
+	r.Rule = fmt.Sprintf("specification: inodes 2..31 are files of at most 4096 bytes; sequential: every sequence of <=%d requests (from the initial state and from two non-initial states: a file written and then shrunk, a full file) over a %d-symbol alphabet (inode numbers {0,1,2,3,31,32,2^64-1}; WRITE offsets {0,1,100,4095,4096,4097,2^64-1} x counts {0,1,100,4096,4097} x data lengths {count,count-1,count+1}; READs; SETATTR sizes up to 2^64-1; restart) - every reply (status, count, data, eof, size) and the final contents against the specification; crash: every crash image of every mutating history of depth <=%d recovered with simple.Recover under two schedules: contents = specification after a prefix containing every acknowledged request, and the server keeps serving; concurrent: all schedules with <=%d deviations of 2-3 clients on one file, brute-force linearizability; concurrent + crash: for every schedule (one deviation less, no state caching) of three 2-client harnesses every crash image of the recorded trace, at every cut at which it is possible: the requests acknowledged before the cut with their replies (reads included: the server keeps a file locked until its update is on disk), any subset of the pending ones and the contents after recovery must be linearizable", depth, len(al), cdepth, bound)
 	var mut []sOp
 	for _, o := range al {
 		if (o.K == "WRITE" || o.K == "SETATTR") && o.Ino == 2 && (sSpec{}).apply(o).OK || (o.K == "WRITE" && o.Ino == 2 && o.Off <= 100 && o.Cnt == 100 && o.DLen == 0) {
@@ -588,6 +674,19 @@ func C17(r *report.Report, tier string) {
 			r.Exhaustive = false
 		}
 		r.Sample(map[string]interface{}{"concurrent_harness": h, "executions": s.Execs, "distinct_outcomes": len(s.Outcomes)})
+		s.Outcomes = map[string]int64{"(distinct outcomes)": int64(len(s.Outcomes))}
+		sums = append(sums, s)
+	}
+	// concurrent clients and a crash (durable linearizability, reads included)
+	for _, h := range []sCCArg{
+		{Name: "write-vs-read", Clients: [][]sOp{{W(0, 100, 0x41)}, {{K: "READ", Ino: 2, Off: 0, Cnt: 4096}, {K: "GETATTR", Ino: 2}}}},
+		{Name: "write-vs-write-same-file", Clients: [][]sOp{{W(0, 100, 0x42)}, {W(50, 100, 0x43)}}},
+		{Name: "write-vs-setattr-other-file", Clients: [][]sOp{{W(0, 100, 0x44)}, {{K: "SETATTR", Ino: 3, Size: 300}, {K: "GETATTR", Ino: 3}}}},
+	} {
+		h.Cap = 64
+		s := ExploreAllOpt(r, "c17.conccrash", h, bound-1, vrt.PDiskW|vrt.PUnlock, false, true)
+		s.Harness = "conccrash:" + h.Name
+		r.Sample(map[string]interface{}{"concurrent_crash_harness": h, "executions": s.Execs, "distinct_outcomes": len(s.Outcomes)})
 		s.Outcomes = map[string]int64{"(distinct outcomes)": int64(len(s.Outcomes))}
 		sums = append(sums, s)
 	}
